@@ -85,6 +85,10 @@ OPS = {
     "ds_set_axis_copy": lambda e: e.ds.set_axis([1, 2, 3], axis="x", inplace=False), "ds_rename_axes_copy": lambda e: e.ds.rename_axes({"x": "w"}, inplace=False),
     "ds_rename_keys_copy": lambda e: e.ds.rename_keys({"a": "z"}, inplace=False), "stack_ds": lambda e: da.stack_ds([e.ds, e.ds], axis="s"), "stack_ds_align": lambda e: da.stack_ds([e.ds2, e.ds2b], axis="s", align=True),
     "concatenate_ds": lambda e: da.concatenate_ds([e.ds2, e.ds2], axis="x"), "ds_eq": lambda e: e.ds == e.ds, "ds_repr": lambda e: repr(e.ds),
+    # ---- the 1-D result of indexing with an N-d boolean mask (a plain axis named "x,y") as operand of everything that reshapes
+    "mask_add": lambda e: e.am + e.w, "mask_rmul": lambda e: e.w * e.am, "mask_reshape": lambda e: e.am.reshape("new", e.am.dims[0]),
+    "mask_broadcast": lambda e: e.am.broadcast([Axis(np.array([1, 2]), "k")] + list(e.am.axes)), "mask_bca": lambda e: da.broadcast_arrays(e.am, e.w),
+    "mask_array": lambda e: da.array([e.am, e.w]), "mask_newaxis": lambda e: e.am.newaxis("n"), "mask_stack": lambda e: da.stack([e.am, e.am], axis="s"),
 }
 
 
@@ -133,7 +137,10 @@ def make_env(variant="fresh", semicolon=False):
     e.ds2["a"] = e.a
     e.ds2b = Dataset()
     e.ds2b["a"] = e.b
-    e.operands = {"a": e.a, "aT": e.aT, "a3": e.a3, "an": e.an, "b": e.b, "a1": e.a1, "a0": e.a0, "ds": e.ds, "ds2": e.ds2, "ds2b": e.ds2b}
+    e.am = e.an[e.an > float(np.nanmin(e.an.values))]       # public indexing: 1-D, its axis is a plain Axis named "<x>,y" with tuple labels
+    e.w = D.build_impl(D.spec(["w"], [[7, 5]], ["i"], base=6))
+    e.operands = {"a": e.a, "aT": e.aT, "a3": e.a3, "an": e.an, "b": e.b, "a1": e.a1, "a0": e.a0, "ds": e.ds, "ds2": e.ds2, "ds2b": e.ds2b,
+                  "am": e.am, "w": e.w}
     return e
 
 
@@ -143,4 +150,5 @@ def adapt(name, semicolon):
     return name in SEMI_OPS
 
 
-SEMI_OPS = ["reshape", "reshape_fail", "reshape_same", "reshape_group", "flatten", "unflatten", "T", "newaxis", "add", "align_outer", "stack", "Dataset_ctor", "sum_all", "cumsum", "copy"]
+SEMI_OPS = ["reshape", "reshape_fail", "reshape_same", "reshape_group", "flatten", "unflatten", "T", "newaxis", "add", "align_outer", "stack", "Dataset_ctor", "sum_all", "cumsum", "copy",
+            "mask_add", "mask_rmul", "mask_reshape", "mask_broadcast", "mask_bca", "mask_array", "mask_newaxis", "mask_stack"]
